@@ -1171,16 +1171,18 @@ func c18LibraryValues(c *Ctx) {
 			*out = append(*out, s)
 		}
 	}
-	var collect func(ns []*XNode, have map[string]bool)
-	collect = func(ns []*XNode, have map[string]bool) {
+	norm := func(t string) string { return strings.TrimSuffix(strings.TrimSpace(t), ":") }
+	var collect func(ns []*XNode, have map[string]int)
+	collect = func(ns []*XNode, have map[string]int) {
 		for _, n := range ns {
 			if n.IsText {
-				have[strings.TrimSpace(n.Text)] = true
+				have[norm(n.Text)]++
 				continue
 			}
-			have[n.Name] = true
+			have[n.Name]++
 			for _, a := range n.Attrs {
-				have[a[0]], have[a[1]] = true, true
+				have[a[0]]++
+				have[norm(a[1])]++
 			}
 			collect(n.Kids, have)
 		}
@@ -1223,23 +1225,18 @@ func c18LibraryValues(c *Ctx) {
 				c.Violation(kind+"-not-wellformed", "standard parser rejects the exported document of a value built by the library: "+perr.Error(), rp)
 				continue
 			}
-			have := map[string]bool{}
+			have := map[string]int{}
 			collect(forest, have)
+			need := map[string]int{}
 			for _, w := range want {
-				w2 := strings.TrimSpace(w)
-				if w2 == "" || have[w2] || have[w2+":"] {
-					continue
+				if w2 := norm(w); w2 != "" {
+					need[w2]++
 				}
-				found := false
-				for h := range have {
-					if strings.Contains(h, w2) {
-						found = true
-						break
-					}
-				}
-				if !found {
+			}
+			for w, n := range need {
+				if have[w] < n {
 					rp["missing"] = w
-					c.Violation(kind+"-library-value-incomplete", fmt.Sprintf("%q, which the observers of the value show, is nowhere in the exported document", w), rp)
+					c.Violation(kind+"-library-value-incomplete", fmt.Sprintf("the observers of the value show %q %d times (keys by Iter, scalars by ToString), the exported document has it %d times", w, n, have[w]), rp)
 					break
 				}
 			}
